@@ -130,6 +130,11 @@ class Game(AsyncMode):
         game: A reference to the game mode object.
         '''
 
+        if self.ending:
+            # end_game() was requested while the game was starting: no player
+            # will be added any more and the game ends without having started
+            return
+
         # Sometimes game_starting handlers will add players, so we only
         # have to add one here if there aren't any players yet.
         if self.player_list:
